@@ -624,6 +624,11 @@ def rule_envname(ctx, prop: str) -> RuleResult:
                     continue
                 for a in ast.walk(fv.value):
                     if isinstance(a, ast.Attribute) and a.attr == "name" and isinstance(a.value, ast.Name):
+                        # not a node: a WindowStruct descriptor (`win = window_struct(...)`), whose `.name` is
+                        # the C struct tag
+                        defs_ = [k.value for k in f.body_nodes() if isinstance(k, ast.Assign) and len(k.targets) == 1 and isinstance(k.targets[0], ast.Name) and k.targets[0].id == a.value.id]
+                        if defs_ and all(isinstance(v, ast.Call) and last_name(v) == "window_struct" for v in defs_):
+                            continue
                         # allowed: env[x.name], self.env[x.name], self.mems[...], x.name() calls
                         q = parent(a)
                         ok = False
@@ -854,4 +859,59 @@ def rule_externname(ctx, prop: str) -> RuleResult:
     if n_ext < 6:
         raise AnalysisError(f"EXTERNNAME: expected >= 6 externs with globl/compile in libs/externs.py, found {n_ext}")
     res.floor = 6
+    return res
+
+
+def rule_winconstarg(ctx, prop: str) -> RuleResult:
+    """A callee declares a window parameter as `struct exo_win_<n><t>c` (const) when it never writes
+    it and as `struct exo_win_<n><t>` otherwise; the two are different C struct types.  Every way a
+    window reaches a call must therefore produce the struct the CALLEE declares — its const-ness taken
+    from the callee's writes (`get_writes_of_stmts(fn.body)`): the window-expression case builds the
+    literal of that type, and the by-name case (a window variable or window parameter the caller also
+    writes is a non-const struct in the caller) must convert.  Passing the caller's struct as it is gives
+    `error: incompatible type for argument` in every C compiler."""
+    ix, adts = ctx.ix, ctx.adts
+    res = RuleResult("WINCONSTARG")
+    f = ix.func(COMP, "Compiler.comp_fnarg")
+    res.analysed.append(f"{COMP}:Compiler.comp_fnarg")
+    ps = [a for a in f.params() if a != "self"]
+    subj = ps[0] if ps else "e"
+    n_paths = 0
+    for n in f.node.body:
+        if not isinstance(n, ast.If):
+            continue
+        # walk the if / elif chain on the argument node
+        chain = []
+        cur = n
+        while isinstance(cur, ast.If):
+            chain.append(cur)
+            cur = cur.orelse[0] if len(cur.orelse) == 1 and isinstance(cur.orelse[0], ast.If) else None
+        for c in chain:
+            t = ast.unparse(c.test)
+            if f"isinstance({subj}, LoopIR.WindowExpr)" in t:
+                region, what = c.body, "window expression"
+            elif f"isinstance({subj}, LoopIR.Read)" in t:
+                # the branch of the Read case that handles tensors / windows
+                region = None
+                for k in ast.walk(c):
+                    if isinstance(k, ast.If) and "is_tensor_or_window" in ast.unparse(k.test):
+                        region = k.body
+                what = "window passed by name"
+                if region is None:
+                    raise AnalysisError("anchor vanished: tensor/window branch of comp_fnarg's Read case")
+            else:
+                continue
+            n_paths += 1
+            res.instances += 1
+            res.nontrivial += 1
+            ok = any(isinstance(k, ast.Call) and last_name(k) == "get_writes_of_stmts" and k.args and ast.unparse(k.args[0]).endswith(".body") for st in region for k in ast.walk(st))
+            res.ob(ok)
+            res.sample(f"comp_fnarg, {what}: const-ness of the struct taken from the callee's writes: {ok}")
+            if not ok:
+                res.add(Finding("WINCONSTARG", COMP, c.lineno, f.qualname, f"callee-constness:{what.replace(' ', '-')}",
+                                f"comp_fnarg, {what}: the window struct handed to the callee is not typed by the callee's own writes. A window that the caller writes elsewhere is a "
+                                f"`struct exo_win_1f32` in the caller; a callee that only reads it declares `struct exo_win_1f32c` — the emitted call does not compile (incompatible argument type)"))
+    if n_paths < 2:
+        raise AnalysisError(f"WINCONSTARG: expected the Read and WindowExpr cases of comp_fnarg, found {n_paths}")
+    res.floor = 2
     return res
